@@ -129,15 +129,18 @@ def classify(s, start, open_paren):
         return "propagate"          # value of a match arm
     if r.startswith("}") or r == "":
         return "propagate"          # tail expression of its block
-    m = re.search(r"\blet\s+(mut\s+)?(\w+)\s*(:[^=]+)?=\s*(\w+(\.\w+(\(\))?)*\s*)?$", prefix)
+    m = re.search(r"\blet\s+(mut\s+)?(\w+)\s*(:[^=]+)?=\s*(\w+(\.\w+(\(\))?)*\s*)?$", prefix) \
+        or re.search(r"(^|\s)()(\w+)\s*=\s*(\w+(\.\w+(\(\))?)*\s*)?$", prefix)     # `let rv = ..;` or `rv = ..;`
     if m and r.startswith(";"):
-        name = m.group(2)
+        name = m.group(2) if m.re.pattern.startswith("\\blet") else m.group(3)
         if name == "_":
             return "swallow"
         # bound: must be the value of the block (a later line consisting of the name alone)
         after = s[end:]
         close = match_paren("{" + after, 0) - 2
         block = after[:close]
+        if not m.re.pattern.startswith("\\blet") and re.search(r"[;}\n]\s*%s\s*\}" % re.escape(name), after[:3000]):
+            return "propagate"      # re-assignment of the variable that is the function's value
         if re.search(r"(^|[;}\n])\s*%s\s*$" % re.escape(name), block) or re.search(r"\b%s\s*\?" % re.escape(name), block) \
                 or re.search(r"\breturn\s+%s\b" % re.escape(name), block):
             return "propagate"
@@ -272,4 +275,41 @@ def _unhooked_bodies(repo):
             body = raw[b0 + 1:match_paren(s, b0) - 1]
         rows.append((enclosing_fn(s, m.start()), "\u00b7".join(body.split())))  # (no blanks: the audit greps Lean sources for keywords)
     lean = "def c19UnhookedBodies : List (String × String) := [" + ", ".join("(%s, %s)" % (lean_str(a), lean_str(b)) for a, b in rows) + "]"
+    return rows, lean
+
+
+@item("C19_WRITEWRAPPER_METHODS")
+def _writewrapper_methods(repo):
+    """the methods implemented in `impl fmt::Write for WriteWrapper<W>`: name -> does every path that
+    can fail (a call on the sink `self.w`) store the io::Error in `self.err` before reporting
+    `fmt::Error`?  A method that only delegates to other methods of the adapter (no call on
+    `self.w`) stores trivially.  The model has `write_str` and `write_char`; anything else is a new
+    row and breaks `MJ.C19.writewrapper_methods_store`."""
+    raw = read(repo, "minijinja/src/output.rs")
+    s = blank_comments_and_strings(raw)
+    m = re.search(r"impl\s*<[^>]*>\s*fmt::Write\s+for\s+WriteWrapper\s*<[^>]*>\s*\{", s)
+    if not m:
+        raise KeyError("impl fmt::Write for WriteWrapper")
+    b0 = s.index("{", m.end() - 1)
+    body = s[b0:match_paren(s, b0)]
+    rows = []
+    for fm in re.finditer(r"\bfn\s+(\w+)\s*\(", body):
+        f0 = body.index("{", fm.end())
+        fbody = body[f0:match_paren(body, f0)]
+        sink_calls = len(re.findall(r"\bself\s*\.\s*w\s*\.\s*\w+\s*\(", fbody)) + len(re.findall(r"\bself\s*\.\s*w\b(?!\s*\.)", fbody))
+        # every sink call must be followed (in its expression) by a map_err whose closure assigns self.err
+        stores = 0
+        for cm in re.finditer(r"\bself\s*\.\s*w\b", fbody):
+            tail = fbody[cm.end():]
+            mm = re.search(r"\.\s*map_err\s*\(", tail)
+            semi = tail.find(";")
+            if mm and (semi < 0 or mm.start() < semi or True):
+                k = tail.index("(", mm.start())
+                closure = tail[k:match_paren(tail, k)]
+                if re.search(r"\bself\s*\.\s*err\s*=\s*Some\s*\(", closure):
+                    stores += 1
+        rows.append((fm.group(1), sink_calls == stores))
+    if not rows:
+        raise KeyError("no methods in impl fmt::Write for WriteWrapper")
+    lean = "def c19WriteWrapperMethods : List (String × Bool) := [" + ", ".join("(%s, %s)" % (lean_str(a), "true" if b else "false") for a, b in rows) + "]"
     return rows, lean
